@@ -18,7 +18,7 @@ from explore import expect, conc, Violation
 from models import int_to_chars
 
 PROPERTY = 'C19'
-BUDGET = {'quick': 420, 'thorough': 3000}
+BUDGET = {'quick': 900, 'thorough': 3000}
 BOUNDS = {'quick': dict(classify=3, digits=2, prec_ops=2), 'thorough': dict(classify=4, digits=3, prec_ops=3)}
 ASSUMPTIONS = [
     'pest is modelled, not executed: grammar read from /repo/src/calculator/grammar.pest by a PEG evaluator with pest\'s documented semantics, Pratt climbing after pest 2.8 pratt_parser.rs; every leaf is cross-checked against the native run_calculator',
